@@ -1,1 +1,560 @@
-/- property theorems for C16 (filled in below) -/
+/-
+C16 — affine charts, affine maps and subspace operations in projective space are exact.
+Only property theorems and non-vacuity examples live here; helper lemmas are in
+`GT.Lemmas.Affine`.  Model: `GT.Model.Affine`.  Every theorem holds over an arbitrary field
+`K` (so over ℝ and ℂ, including purely imaginary chart coordinates).
+-/
+import GT.Lemmas.Affine
+import Mathlib.Data.Complex.Basic
+import Mathlib.Algebra.BigOperators.Field
+import Mathlib.LinearAlgebra.Matrix.NonsingularInverse
+import Mathlib.Tactic.NormNum
+import Mathlib.Tactic.FinCases
+import Mathlib.LinearAlgebra.FiniteDimensional.Lemmas
+import Mathlib.LinearAlgebra.Matrix.ToLin
+import Mathlib.LinearAlgebra.Dimension.Constructions
+
+open Matrix Finset BigOperators
+
+set_option linter.unusedSectionVars false
+
+namespace GT.C16
+open GT.Affine
+
+variable {K : Type*} [Field K] {n m k₁ k₂ d : ℕ}
+
+/-! ## charts: `1` in the chart slot, round trips after any non-zero rescaling -/
+
+/-- homogeneous coordinates built from affine coordinates have a `1` in the chart slot -/
+theorem projCoords_chart (c : Fin (n + 1)) (a : Fin n → K) : projCoords c a c = 1 := by
+  simp [projCoords]
+
+/-- … and the affine coordinates in the other slots, in order -/
+theorem projCoords_succAbove (c : Fin (n + 1)) (a : Fin n → K) (i : Fin n) :
+    projCoords c a (c.succAbove i) = a i := by
+  simp [projCoords]
+
+/-- affine → projective → affine is the identity, in every chart and dimension -/
+theorem affine_proj_roundtrip (c : Fin (n + 1)) (a : Fin n → K) :
+    affineCoords c (projCoords c a) = a := by
+  funext i; simp [affineCoords, projCoords]
+
+/-- affine coordinates do not depend on the homogeneous representative -/
+theorem affine_smul (c : Fin (n + 1)) (x : Fin (n + 1) → K) (s : K) (hs : s ≠ 0) :
+    affineCoords c (s • x) = affineCoords c x := by
+  funext i
+  simp only [affineCoords, Pi.smul_apply, smul_eq_mul]
+  exact mul_div_mul_left _ _ hs
+
+/-- the round trip after an arbitrary non-zero rescaling of the homogeneous coordinates -/
+theorem affine_proj_roundtrip_smul (c : Fin (n + 1)) (a : Fin n → K) (s : K) (hs : s ≠ 0) :
+    affineCoords c (s • projCoords c a) = a := by
+  rw [affine_smul c _ s hs, affine_proj_roundtrip]
+
+/-- projective → affine → projective gives back the same projective point (the
+representative normalised to `1` in the chart slot) -/
+theorem proj_affine_roundtrip (c : Fin (n + 1)) (x : Fin (n + 1) → K) (h : x c ≠ 0) :
+    projCoords c (affineCoords c x) = (x c)⁻¹ • x := by
+  funext i
+  rcases Fin.eq_self_or_eq_succAbove c i with rfl | ⟨j, rfl⟩
+  · simp [projCoords, h]
+  · simp [projCoords, affineCoords, div_eq_inv_mul]
+
+/-- a rescaled point stays in the chart -/
+theorem smul_chart_ne (c : Fin (n + 1)) (x : Fin (n + 1) → K) (s : K) (hs : s ≠ 0) (h : x c ≠ 0) :
+    (s • x) c ≠ 0 := by
+  simpa using mul_ne_zero hs h
+
+/-- column layout: the same round trip, with the `1`s in row `c` -/
+theorem affine_proj_roundtrip_cols (c : Fin (n + 1)) (A : Matrix (Fin n) (Fin m) K) :
+    affineCoordsCols c (projCoordsCols c A) = A ∧ ∀ j, projCoordsCols c A c j = 1 := by
+  constructor
+  · ext i j
+    simp [affineCoordsCols, projCoordsCols, affineCoords, projCoords, Matrix.transpose_apply]
+  · intro j
+    simp [projCoordsCols, projCoords, Matrix.transpose_apply]
+
+/-- the column layout is the transpose of the row layout -/
+theorem affineCoordsCols_transpose (c : Fin (n + 1)) (X : Matrix (Fin (n + 1)) (Fin m) K) (j : Fin m) :
+    (affineCoordsCols c X)ᵀ j = affineCoords c (Xᵀ j) := rfl
+
+section guard
+variable [DecidableEq K]
+
+/-- `Point.in_affine_chart`: true exactly when the chart coordinate is non-zero (compared in
+the field itself — over ℂ a purely imaginary chart coordinate is non-zero) -/
+theorem inChart_iff (c : Fin (n + 1)) (x : Fin (n + 1) → K) : inChart c x = true ↔ x c ≠ 0 := by
+  simp [inChart]
+
+/-- a point is reported outside the chart (`GeometryError`) exactly when its chart
+coordinate is zero -/
+theorem affineCoords?_eq_none_iff (c : Fin (n + 1)) (x : Fin (n + 1) → K) :
+    affineCoords? c x = none ↔ x c = 0 := by
+  unfold affineCoords?; split_ifs with h <;> simp [h]
+
+theorem affineCoords?_eq_some (c : Fin (n + 1)) (x : Fin (n + 1) → K) (h : x c ≠ 0) :
+    affineCoords? c x = some (affineCoords c x) := by
+  simp [affineCoords?, h]
+
+/-- composite arrays: the call raises exactly when *some* point has chart coordinate zero,
+and otherwise converts every point -/
+theorem affineCoordsAll?_eq_none_iff (c : Fin (n + 1)) (xs : List (Fin (n + 1) → K)) :
+    affineCoordsAll? c xs = none ↔ ∃ x ∈ xs, x c = 0 := by
+  unfold affineCoordsAll?; split_ifs with h
+  · simpa using h
+  · simpa using h
+
+theorem affineCoordsAll?_eq_some (c : Fin (n + 1)) (xs : List (Fin (n + 1) → K))
+    (h : ∀ x ∈ xs, x c ≠ 0) : affineCoordsAll? c xs = some (xs.map (affineCoords c)) := by
+  unfold affineCoordsAll?
+  rw [if_neg]
+  simpa using h
+
+/-- set-then-get through the guard, after any non-zero rescaling: never an error -/
+theorem affineCoords?_smul_projCoords (c : Fin (n + 1)) (a : Fin n → K) (s : K) (hs : s ≠ 0) :
+    affineCoords? c (s • projCoords c a) = some a := by
+  rw [affineCoords?_eq_some, affine_proj_roundtrip_smul c a s hs]
+  exact smul_chart_ne c _ s hs (by rw [projCoords_chart]; exact one_ne_zero)
+
+end guard
+
+/-- purely imaginary chart coordinate over ℂ: inside the chart, and the round trip holds -/
+example : affineCoords (K := ℂ) 0 (Complex.I • projCoords 0 ![2, 3]) = ![2, 3] :=
+  affine_proj_roundtrip_smul 0 _ Complex.I Complex.I_ne_zero
+
+example : (Complex.I • projCoords (K := ℂ) 0 ![2, 3]) 0 ≠ 0 :=
+  smul_chart_ne 0 _ _ Complex.I_ne_zero (by rw [projCoords_chart]; exact one_ne_zero)
+
+/-! ## automatic chart choice (`chart_index=None`) -/
+
+section auto
+variable {L : Type*} [LinearOrder L] [Zero L]
+
+/-- if *some* standard chart contains all the points, the chart chosen by
+`affine_coords(points, chart_index=None)` (argmax over charts of the smallest `|coordinate|`)
+contains all of them; `absf` is `np.abs` (any map with `0 ≤ absf x` and `absf x = 0 ↔ x = 0`) -/
+theorem autoChart_contains (absf : K → L) (h0 : ∀ x, 0 ≤ absf x) (hz : ∀ x, absf x = 0 ↔ x = 0)
+    (p₀ : Fin (n + 1) → K) (rest : List (Fin (n + 1) → K))
+    (hex : ∃ c, ∀ x ∈ p₀ :: rest, x c ≠ 0) :
+    ∀ x ∈ p₀ :: rest, x (autoChart absf p₀ rest) ≠ 0 := by
+  obtain ⟨c, hc⟩ := hex
+  obtain ⟨y, hy, hmin⟩ := (colMin_spec absf p₀ rest c).2
+  have hpos : 0 < colMin absf p₀ rest c := by
+    rw [hmin]
+    exact lt_of_le_of_ne (h0 _) (fun h => hc y hy ((hz _).1 h.symm))
+  have hle : colMin absf p₀ rest c ≤ colMin absf p₀ rest (autoChart absf p₀ rest) :=
+    argmaxFirst_spec _ c
+  intro x hx hx0
+  have := (colMin_spec absf p₀ rest (autoChart absf p₀ rest)).1 x hx
+  rw [hx0, (hz 0).2 rfl] at this
+  exact absurd (lt_of_lt_of_le hpos (le_trans hle this)) (lt_irrefl _)
+
+/-- the automatic call raises ("points don't lie in any standard affine chart") exactly when no
+standard chart contains all the points; otherwise it converts every point in the chosen chart -/
+theorem affineCoordsAuto?_eq_none_iff [DecidableEq K] (absf : K → L) (h0 : ∀ x, 0 ≤ absf x)
+    (hz : ∀ x, absf x = 0 ↔ x = 0) (p₀ : Fin (n + 1) → K) (rest : List (Fin (n + 1) → K)) :
+    affineCoordsAuto? absf p₀ rest = none ↔ ∀ c, ∃ x ∈ p₀ :: rest, x c = 0 := by
+  unfold affineCoordsAuto?
+  rw [Option.map_eq_none_iff, affineCoordsAll?_eq_none_iff]
+  constructor
+  · intro h c
+    by_contra hc
+    have hc' : ∀ x ∈ p₀ :: rest, x c ≠ 0 := fun x hx h0' => hc ⟨x, hx, h0'⟩
+    obtain ⟨x, hx, hx0⟩ := h
+    exact autoChart_contains absf h0 hz p₀ rest ⟨c, hc'⟩ x hx hx0
+  · intro h; exact h _
+
+theorem affineCoordsAuto?_eq_some [DecidableEq K] (absf : K → L) (h0 : ∀ x, 0 ≤ absf x)
+    (hz : ∀ x, absf x = 0 ↔ x = 0) (p₀ : Fin (n + 1) → K) (rest : List (Fin (n + 1) → K))
+    (hex : ∃ c, ∀ x ∈ p₀ :: rest, x c ≠ 0) :
+    affineCoordsAuto? absf p₀ rest =
+      some ((p₀ :: rest).map (affineCoords (autoChart absf p₀ rest)), autoChart absf p₀ rest) := by
+  unfold affineCoordsAuto?
+  rw [affineCoordsAll?_eq_some _ _ (autoChart_contains absf h0 hz p₀ rest hex)]
+  rfl
+
+example : autoChart (K := ℚ) (fun x => |x|) ![0, 2, 1] [![3, 1, 0]] = 1 := by decide
+
+end auto
+
+/-! ## affine maps act in the chart as the linear map / the translation -/
+
+/-- `affine_linear_map(L, c, column_vectors=True)`: the chart coordinate is kept and the
+affine coordinates are multiplied by `L` on the left (column vectors) -/
+theorem affineLinearMap_acts_col (c : Fin (n + 1)) (L : Matrix (Fin n) (Fin n) K)
+    (x : Fin (n + 1) → K) :
+    applyT (affineLinearMap c L true) x c = x c ∧
+    affineCoords c (applyT (affineLinearMap c L true) x) = L *ᵥ affineCoords c x := by
+  have e : applyT (affineLinearMap c L true) x = affineLinearBlock c L *ᵥ x := by
+    simp [applyT, affineLinearMap, Matrix.vecMul_transpose]
+  rw [e]
+  refine ⟨mulVec_block_c c L x, ?_⟩
+  funext i
+  show (affineLinearBlock c L *ᵥ x) (c.succAbove i) / (affineLinearBlock c L *ᵥ x) c = _
+  rw [mulVec_block_c, mulVec_block_sa]
+  simp only [affineCoords, Matrix.mulVec, dotProduct]
+  rw [Finset.sum_div]
+  exact Finset.sum_congr rfl fun j _ => by rw [mul_div_assoc]
+
+/-- `affine_linear_map(L, c, column_vectors=False)`: `L` acts on row vectors, on the right -/
+theorem affineLinearMap_acts_row (c : Fin (n + 1)) (L : Matrix (Fin n) (Fin n) K)
+    (x : Fin (n + 1) → K) :
+    applyT (affineLinearMap c L false) x c = x c ∧
+    affineCoords c (applyT (affineLinearMap c L false) x) = affineCoords c x ᵥ* L := by
+  have e : applyT (affineLinearMap c L false) x = x ᵥ* affineLinearBlock c L := by
+    simp [applyT, affineLinearMap]
+  rw [e]
+  refine ⟨vecMul_block_c c L x, ?_⟩
+  funext i
+  show (x ᵥ* affineLinearBlock c L) (c.succAbove i) / (x ᵥ* affineLinearBlock c L) c = _
+  rw [vecMul_block_c, vecMul_block_sa]
+  simp only [affineCoords, Matrix.vecMul, dotProduct]
+  rw [Finset.sum_div]
+  exact Finset.sum_congr rfl fun j _ => by rw [div_mul_eq_mul_div]
+
+/-- both layouts in one statement -/
+theorem affineLinearMap_acts (c : Fin (n + 1)) (L : Matrix (Fin n) (Fin n) K) (cv : Bool)
+    (x : Fin (n + 1) → K) :
+    affineCoords c (applyT (affineLinearMap c L cv) x) =
+      if cv then L *ᵥ affineCoords c x else affineCoords c x ᵥ* L := by
+  cases cv
+  · simpa using (affineLinearMap_acts_row c L x).2
+  · simpa using (affineLinearMap_acts_col c L x).2
+
+/-- the fixed point of the chart (affine origin) is fixed -/
+theorem affineLinearMap_origin (c : Fin (n + 1)) (L : Matrix (Fin n) (Fin n) K) (cv : Bool) :
+    affineCoords c (applyT (affineLinearMap c L cv) (projCoords c 0)) = 0 := by
+  rw [affineLinearMap_acts, affine_proj_roundtrip]; cases cv <;> simp
+
+/-- `affine_translation(t, c)`: the chart coordinate is kept and the affine coordinates are
+translated by `t` -/
+theorem affineTranslation_acts (c : Fin (n + 1)) (t : Fin n → K) (x : Fin (n + 1) → K)
+    (h : x c ≠ 0) :
+    applyT (affineTranslation c t) x c = x c ∧
+    affineCoords c (applyT (affineTranslation c t) x) = affineCoords c x + t := by
+  refine ⟨vecMul_translation_c c t x, ?_⟩
+  funext i
+  simp only [applyT, affineCoords, vecMul_translation_c, vecMul_translation_sa, Pi.add_apply]
+  field_simp
+
+example : affineCoords (K := ℚ) 1 (applyT (affineTranslation 1 ![5, 6]) ![1, 2, 3]) = ![1/2 + 5, 3/2 + 6] :=
+  (affineTranslation_acts 1 ![5, 6] ![1, 2, 3] (by norm_num)).2.trans (by
+    funext i; fin_cases i <;> simp [affineCoords, Fin.succAbove])
+
+/-! ## `hyperplane_coordinate_transform` under the QR (and inverse) contract -/
+
+/-- QR contract: `Q` orthogonal, first column of `Q` times `r₀₀` is the normal, `sgn = ±1`
+(`np.sign r₀₀`); inverse contract: `inv M * M = 1` for the matrix it is applied to.
+Then the returned transformation is `sgn • Q`, it is orthogonal, and the chart-0 coordinate
+of the image of any point `p` is `(sgn / r₀₀) * (p · normal)`. -/
+theorem hyperplaneTransform_spec
+    (inv : Matrix (Fin (n + 1)) (Fin (n + 1)) K → Matrix (Fin (n + 1)) (Fin (n + 1)) K)
+    (Q : Matrix (Fin (n + 1)) (Fin (n + 1)) K) (sgn r₀₀ : K) (normal : Fin (n + 1) → K)
+    (hQ : Qᵀ * Q = 1) (hcol : ∀ i, normal i = Q i 0 * r₀₀) (hs : sgn * sgn = 1)
+    (hinv : inv (definiteIsometry Q sgn)ᵀ * (definiteIsometry Q sgn)ᵀ = 1) :
+    let T := hyperplaneTransform inv Q sgn
+    T = sgn • Q ∧ Tᵀ * T = 1 ∧ T * Tᵀ = 1 ∧
+      ∀ p : Fin (n + 1) → K, applyT T p 0 * r₀₀ = sgn * (p ⬝ᵥ normal) := by
+  intro T
+  have hQ' : Q * Qᵀ = 1 := mul_eq_one_comm.mp hQ
+  have hiso : (sgn • Q) * (sgn • Q)ᵀ = 1 := by
+    rw [Matrix.transpose_smul, Matrix.smul_mul, Matrix.mul_smul, hQ', smul_smul, hs, one_smul]
+  have hT : T = sgn • Q := by
+    have h1 : T * (sgn • Q)ᵀ = 1 := hinv
+    calc T = T * ((sgn • Q)ᵀ * (sgn • Q)) := by
+            rw [mul_eq_one_comm.mp hiso, Matrix.mul_one]
+      _ = sgn • Q := by rw [← Matrix.mul_assoc, h1, Matrix.one_mul]
+  refine ⟨hT, ?_, ?_, ?_⟩
+  · rw [hT]; exact mul_eq_one_comm.mp hiso
+  · rw [hT]; exact hiso
+  · intro p
+    rw [hT]
+    simp only [applyT, Matrix.vecMul, dotProduct, Matrix.smul_apply, smul_eq_mul]
+    rw [Finset.sum_mul, Finset.mul_sum]
+    exact Finset.sum_congr rfl fun i _ => by rw [hcol i]; ring
+
+/-- "sends the hyperplane to infinity": with `r₀₀ ≠ 0`, a point lies on the hyperplane
+`p · normal = 0` exactly when its image has chart-0 coordinate zero, so the chart
+`{p · normal ≠ 0}` is carried onto the standard chart of index 0 -/
+theorem hyperplaneTransform_infinity
+    (inv : Matrix (Fin (n + 1)) (Fin (n + 1)) K → Matrix (Fin (n + 1)) (Fin (n + 1)) K)
+    (Q : Matrix (Fin (n + 1)) (Fin (n + 1)) K) (sgn r₀₀ : K) (normal : Fin (n + 1) → K)
+    (hQ : Qᵀ * Q = 1) (hcol : ∀ i, normal i = Q i 0 * r₀₀) (hs : sgn * sgn = 1) (hr : r₀₀ ≠ 0)
+    (hinv : inv (definiteIsometry Q sgn)ᵀ * (definiteIsometry Q sgn)ᵀ = 1)
+    (p : Fin (n + 1) → K) :
+    applyT (hyperplaneTransform inv Q sgn) p 0 = 0 ↔ p ⬝ᵥ normal = 0 := by
+  have h := (hyperplaneTransform_spec inv Q sgn r₀₀ normal hQ hcol hs hinv).2.2.2 p
+  have hs0 : sgn ≠ 0 := by rintro rfl; simp at hs
+  constructor
+  · intro h0
+    rw [h0, zero_mul] at h
+    exact (mul_eq_zero.1 h.symm).resolve_left hs0
+  · intro h0
+    rw [h0, mul_zero] at h
+    exact (mul_eq_zero.1 h).resolve_right hr
+
+/-- over an ordered field `np.sign r₀₀` squares to one when `r₀₀ ≠ 0`, and the factor
+`sgn / r₀₀` is positive: the normal itself goes to the *positive* side of chart 0 -/
+theorem npSign_spec [LinearOrder K] [IsStrictOrderedRing K] (r : K) (hr : r ≠ 0) :
+    npSign r * npSign r = 1 ∧ 0 < npSign r * r := by
+  unfold npSign
+  rcases lt_or_gt_of_ne hr with h | h
+  · rw [if_neg (not_lt.2 h.le), if_pos h]
+    constructor
+    · ring
+    · linarith
+  · rw [if_pos h]
+    constructor
+    · ring
+    · linarith
+
+/-- non-vacuity: the normal `(3,4)`, `Q = [[3/5,-4/5],[4/5,3/5]]`, `r₀₀ = 5`, exact inverse -/
+example : ∀ p : Fin 2 → ℚ,
+    applyT (hyperplaneTransform (fun M => M⁻¹) !![3/5, -4/5; 4/5, 3/5] 1) p 0 = 0 ↔
+      p ⬝ᵥ ![3, 4] = 0 := by
+  intro p
+  have hQ : (!![3/5, -4/5; 4/5, 3/5] : Matrix (Fin 2) (Fin 2) ℚ)ᵀ * !![3/5, -4/5; 4/5, 3/5] = 1 := by
+    ext i j; fin_cases i <;> fin_cases j <;> simp [Matrix.mul_apply, Fin.sum_univ_succ] <;> norm_num
+  refine hyperplaneTransform_infinity (fun M => M⁻¹) _ 1 5 ![3, 4] hQ ?_ (by norm_num) (by norm_num) ?_ p
+  · intro i; fin_cases i <;> simp
+  · have : IsUnit ((definiteIsometry (!![3/5, -4/5; 4/5, 3/5] : Matrix (Fin 2) (Fin 2) ℚ) 1)ᵀ).det := by
+      simp [definiteIsometry, Matrix.det_fin_two]; norm_num
+    exact Matrix.nonsing_inv_mul _ this
+
+/-! ## `Subspace.intersect` under the kernel contract -/
+
+/-- kernel contract `spansᵀ * ker = 0`: every returned row is a combination of the rows of
+`p₁` (by definition) *and* of the rows of `p₂` (with coefficients `-ker[k₁:, :]ᵀ`): the
+returned subspace lies in both -/
+theorem intersect_spec (p₁ : Matrix (Fin k₁) (Fin n) K) (p₂ : Matrix (Fin k₂) (Fin n) K)
+    (ker : Matrix (Fin k₁ ⊕ Fin k₂) (Fin d) K) (hker : (spans p₁ p₂)ᵀ * ker = 0) :
+    intersect p₁ ker = (ker.toRows₁)ᵀ * p₁ ∧ intersect p₁ ker = (-(ker.toRows₂)ᵀ) * p₂ := by
+  refine ⟨rfl, ?_⟩
+  have h : p₁ᵀ * ker.toRows₁ + p₂ᵀ * ker.toRows₂ = 0 := by
+    rw [← hker]
+    ext i j
+    simp [spans, Matrix.mul_apply, Fintype.sum_sum_type, Matrix.toRows₁, Matrix.toRows₂]
+  have h' : (ker.toRows₁)ᵀ * p₁ + (ker.toRows₂)ᵀ * p₂ = 0 := by
+    have := congrArg Matrix.transpose h
+    simpa [Matrix.transpose_add, Matrix.transpose_mul] using this
+  unfold intersect
+  rw [Matrix.neg_mul]
+  exact eq_neg_of_add_eq_zero_left h'
+
+/-- completeness: if the kernel contract also says that the columns of `ker` *span* the
+kernel, every vector lying in both row spans is a combination of the returned rows -/
+theorem intersect_complete (p₁ : Matrix (Fin k₁) (Fin n) K) (p₂ : Matrix (Fin k₂) (Fin n) K)
+    (ker : Matrix (Fin k₁ ⊕ Fin k₂) (Fin d) K)
+    (hspan : ∀ v, v ᵥ* spans p₁ p₂ = 0 → ∃ c, v = ker *ᵥ c)
+    (w : Fin n → K) (a : Fin k₁ → K) (b : Fin k₂ → K) (ha : w = a ᵥ* p₁) (hb : w = b ᵥ* p₂) :
+    ∃ c, w = c ᵥ* intersect p₁ ker := by
+  obtain ⟨c, hc⟩ := hspan (Sum.elim a (-b)) (by
+    rw [spans, Matrix.sumElim_vecMul_fromRows, Matrix.neg_vecMul, ← ha, ← hb, add_neg_cancel])
+  refine ⟨c, ?_⟩
+  have ha' : a = ker.toRows₁ *ᵥ c := by
+    funext i
+    have := congrFun hc (Sum.inl i)
+    simpa [Matrix.mulVec, Matrix.toRows₁] using this
+  rw [ha, ha', intersect, ← Matrix.vecMul_vecMul, Matrix.vecMul_transpose]
+
+/-- independence: if the rows of `p₁` and of `p₂` are independent and the columns of `ker`
+are independent, the returned rows are independent (the returned spanning set is a basis) -/
+theorem intersect_independent (p₁ : Matrix (Fin k₁) (Fin n) K) (p₂ : Matrix (Fin k₂) (Fin n) K)
+    (ker : Matrix (Fin k₁ ⊕ Fin k₂) (Fin d) K) (hker : (spans p₁ p₂)ᵀ * ker = 0)
+    (h₁ : ∀ a, a ᵥ* p₁ = 0 → a = 0) (h₂ : ∀ b, b ᵥ* p₂ = 0 → b = 0)
+    (hk : ∀ c, ker *ᵥ c = 0 → c = 0) (c : Fin d → K) (hc : c ᵥ* intersect p₁ ker = 0) : c = 0 := by
+  obtain ⟨e₁, e₂⟩ := intersect_spec p₁ p₂ ker hker
+  apply hk
+  have a0 : ker.toRows₁ *ᵥ c = 0 := by
+    apply h₁
+    rw [← Matrix.vecMul_transpose, Matrix.vecMul_vecMul, ← e₁]; exact hc
+  have b0 : ker.toRows₂ *ᵥ c = 0 := by
+    apply h₂
+    have : c ᵥ* ((-(ker.toRows₂)ᵀ) * p₂) = 0 := by rw [← e₂]; exact hc
+    rw [← Matrix.vecMul_vecMul, Matrix.vecMul_neg, Matrix.vecMul_transpose, Matrix.neg_vecMul,
+      neg_eq_zero] at this
+    exact this
+  funext i
+  rcases i with i | i
+  · simpa [Matrix.mulVec, Matrix.toRows₁] using congrFun a0 i
+  · simpa [Matrix.mulVec, Matrix.toRows₂] using congrFun b0 i
+
+/-- **expected dimension**: under the full kernel contract (the columns of `ker` are a basis of
+the kernel of `spansᵀ`) and transversality (the two spanning sets together span `Kⁿ`), the
+number of returned rows is `k₁ + k₂ - n` -/
+theorem intersect_dim (p₁ : Matrix (Fin k₁) (Fin n) K) (p₂ : Matrix (Fin k₂) (Fin n) K)
+    (ker : Matrix (Fin k₁ ⊕ Fin k₂) (Fin d) K) (hker : (spans p₁ p₂)ᵀ * ker = 0)
+    (hspan : ∀ v, v ᵥ* spans p₁ p₂ = 0 → ∃ c, v = ker *ᵥ c)
+    (hk : ∀ c, ker *ᵥ c = 0 → c = 0)
+    (htrans : ∀ w : Fin n → K, ∃ u, u ᵥ* spans p₁ p₂ = w) :
+    d + n = k₁ + k₂ := by
+  let f : (Fin k₁ ⊕ Fin k₂ → K) →ₗ[K] (Fin n → K) := Matrix.vecMulLinear (spans p₁ p₂)
+  have hf : ∀ u, f u = u ᵥ* spans p₁ p₂ := fun u => rfl
+  have hr : LinearMap.range f = ⊤ := LinearMap.range_eq_top.2 (fun w => by
+    obtain ⟨u, hu⟩ := htrans w; exact ⟨u, hu⟩)
+  have h1 := LinearMap.finrank_range_add_finrank_ker f
+  have hin : ∀ c, ker *ᵥ c ∈ LinearMap.ker f := by
+    intro c
+    rw [LinearMap.mem_ker, hf, ← Matrix.mulVec_transpose, Matrix.mulVec_mulVec, hker, Matrix.zero_mulVec]
+  let g : (Fin d → K) →ₗ[K] LinearMap.ker f := LinearMap.codRestrict _ (Matrix.mulVecLin ker) hin
+  have hg : Function.Bijective g := by
+    constructor
+    · intro c c' h
+      have h' : ker *ᵥ c = ker *ᵥ c' := congrArg Subtype.val h
+      have : ker *ᵥ (c - c') = 0 := by rw [Matrix.mulVec_sub, h', sub_self]
+      exact sub_eq_zero.1 (hk _ this)
+    · rintro ⟨v, hv⟩
+      rw [LinearMap.mem_ker, hf] at hv
+      obtain ⟨c, hc⟩ := hspan v hv
+      exact ⟨c, Subtype.ext hc.symm⟩
+  have e := (LinearEquiv.ofBijective g hg).finrank_eq
+  rw [hr, finrank_top, ← e] at h1
+  simp only [Module.finrank_fintype_fun_eq_card, Fintype.card_fin, Fintype.card_sum] at h1
+  omega
+
+/-- elementwise on composite subspaces: unit `i` of the result is the intersection of units `i` -/
+theorem intersectElementwise_get (P₁ : List (Matrix (Fin k₁) (Fin n) K))
+    (kers : List (Matrix (Fin k₁ ⊕ Fin k₂) (Fin d) K)) (i : ℕ) (h₁ : i < P₁.length) (h₂ : i < kers.length) :
+    (intersectElementwise P₁ kers)[i]'(by simp [intersectElementwise, h₁, h₂]) = intersect P₁[i] kers[i] := by
+  simp [intersectElementwise]
+
+/-- pairwise (`broadcast_match`): unit `i * |a₂| + j` of the tiled arrays is the pair
+(unit `i` of the first, unit `j` of the second) — every subspace against every subspace -/
+theorem broadcastMatch_length {α β : Type*} (a₁ : List α) (a₂ : List β) :
+    (broadcastMatch a₁ a₂).1.length = a₁.length * a₂.length ∧
+    (broadcastMatch a₁ a₂).2.length = a₁.length * a₂.length := by
+  induction a₁ with
+  | nil => simp [broadcastMatch]
+  | cons a l ih =>
+    simp only [broadcastMatch, List.flatMap_cons, List.length_append, List.length_map,
+      List.length_cons] at ih ⊢
+    constructor
+    · rw [ih.1]; ring
+    · rw [ih.2]; ring
+
+theorem broadcastMatch_zip {α β : Type*} (a₁ : List α) (a₂ : List β) :
+    (broadcastMatch a₁ a₂).1.zip (broadcastMatch a₁ a₂).2 = a₁.flatMap fun a => a₂.map fun b => (a, b) := by
+  induction a₁ with
+  | nil => simp [broadcastMatch]
+  | cons a l ih =>
+    simp only [broadcastMatch, List.flatMap_cons] at ih ⊢
+    rw [List.zip_append (by simp), ih, zip_const_left]
+
+/-- non-vacuity: two planes of ℚ³ (`z = 0` and `x = 0`) meet in the `y`-axis -/
+example : intersect (K := ℚ) (k₂ := 2) !![1, 0, 0; 0, 1, 0] (Matrix.of (Sum.elim ![![0], ![1]] ![![-1], ![0]]))
+    = !![0, 1, 0] := by
+  ext i j; fin_cases i; fin_cases j <;>
+    simp [intersect, Matrix.mul_apply, Matrix.toRows₁, Fin.sum_univ_succ]
+
+/-! ## `eigenvector` / `diagonalize` under the eig contract -/
+
+theorem firstTrue_spec : ∀ (m : ℕ) (ic : Fin m → Bool),
+    (∀ i, firstTrue m ic = some i → ic i = true ∧ ∀ j, j < i → ic j = false) ∧
+    (firstTrue m ic = none ↔ ∀ i, ic i = false)
+  | 0, ic => by simp [firstTrue]
+  | m + 1, ic => by
+    obtain ⟨ih1, ih2⟩ := firstTrue_spec m fun i => ic i.succ
+    unfold firstTrue
+    by_cases h0 : ic 0 = true
+    · rw [if_pos h0]
+      constructor
+      · intro i hi
+        cases hi
+        exact ⟨h0, fun j hj => absurd hj (Fin.not_lt_zero j)⟩
+      · simp only [reduceCtorEq, false_iff, not_forall]
+        exact ⟨0, by simp [h0]⟩
+    · rw [if_neg h0]
+      constructor
+      · intro i hi
+        rw [Option.map_eq_some_iff] at hi
+        obtain ⟨i', hi', rfl⟩ := hi
+        obtain ⟨h1, h2⟩ := ih1 i' hi'
+        refine ⟨h1, fun j hj => ?_⟩
+        refine Fin.cases ?_ (fun j' hj' => ?_) j hj
+        · intro _; simpa using h0
+        · exact h2 j' (Fin.succ_lt_succ_iff.1 hj')
+      · rw [Option.map_eq_none_iff, ih2]
+        constructor
+        · intro h i
+          refine Fin.cases ?_ (fun j => h j) i
+          simpa using h0
+        · intro h i; exact h i.succ
+
+/-- eig contract `Pᵀ * V = V * diagonal vals` (columns of `V` are eigenvectors of the
+transposed row matrix).  A reported eigenvector `v` is row `i` of `Vᵀ` for the *first* `i`
+whose eigenvalue passes the mask, and the transformation maps it to `vals i • v`. -/
+theorem eigenvector_selected (P V : Matrix (Fin m) (Fin m) K) (vals : Fin m → K) (ic : K → Bool)
+    (hc : Pᵀ * V = V * Matrix.diagonal vals) (v : Fin m → K)
+    (hv : eigenvector vals V ic = some v) :
+    ∃ i, v = Vᵀ i ∧ ic (vals i) = true ∧ (∀ j, j < i → ic (vals j) = false) ∧
+      applyT P v = vals i • v := by
+  unfold eigenvector at hv
+  rw [Option.map_eq_some_iff] at hv
+  obtain ⟨i, hi, rfl⟩ := hv
+  obtain ⟨h1, h2⟩ := (firstTrue_spec m fun i => ic (vals i)).1 i hi
+  refine ⟨i, rfl, h1, h2, ?_⟩
+  funext j
+  have := congrFun (congrFun hc j) i
+  simp only [Matrix.mul_apply, Matrix.transpose_apply, Matrix.diagonal_apply, mul_ite, mul_zero,
+    Finset.sum_ite_eq', Finset.mem_univ, if_true] at this
+  simp only [applyT, Matrix.vecMul, dotProduct, Matrix.transpose_apply, Pi.smul_apply, smul_eq_mul]
+  rw [mul_comm (vals i), ← this]
+  exact Finset.sum_congr rfl fun k _ => mul_comm _ _
+
+/-- the `GeometryError` of the single-matrix branch is raised exactly when no eigenvalue
+passes the mask -/
+theorem eigenvector_none_iff (V : Matrix (Fin m) (Fin m) K) (vals : Fin m → K) (ic : K → Bool) :
+    eigenvector vals V ic = none ↔ ∀ i, ic (vals i) = false := by
+  unfold eigenvector
+  rw [Option.map_eq_none_iff]
+  exact (firstTrue_spec m fun i => ic (vals i)).2
+
+/-- composite branch: each unit of the answer is either an eigenvector of its unit for a
+masked eigenvalue or (no match) the zero vector -/
+theorem eigenvectorComposite_spec (units : List ((Fin m → K) × Matrix (Fin m) (Fin m) K))
+    (Ps : List (Matrix (Fin m) (Fin m) K)) (ic : K → Bool) (hlen : Ps.length = units.length)
+    (hc : ∀ i (h : i < units.length), (Ps[i]'(hlen ▸ h))ᵀ * units[i].2 = units[i].2 * Matrix.diagonal units[i].1)
+    (i : ℕ) (h : i < units.length) :
+    let v := (eigenvectorComposite units ic)[i]'(by simp [eigenvectorComposite, h])
+    (∃ l, ic (units[i].1 l) = true ∧ applyT (Ps[i]'(hlen ▸ h)) v = units[i].1 l • v) ∨
+      ((∀ l, ic (units[i].1 l) = false) ∧ v = 0) := by
+  intro v
+  have hv : v = (eigenvector units[i].1 units[i].2 ic).getD 0 := by
+    simp [v, eigenvectorComposite]
+  cases he : eigenvector units[i].1 units[i].2 ic with
+  | none =>
+    right
+    exact ⟨(eigenvector_none_iff _ _ _).1 he, by rw [hv, he]; rfl⟩
+  | some w =>
+    left
+    obtain ⟨l, -, h1, -, h3⟩ := eigenvector_selected _ _ _ ic (hc i h) w he
+    exact ⟨l, h1, by rw [hv, he]; exact h3⟩
+
+/-- `diagonalize`: eig contract + inverse contract ⇒ `M.inv() @ T @ M` is the diagonal
+matrix of the eigenvalues -/
+theorem diagonalize_spec (P V W : Matrix (Fin m) (Fin m) K) (vals : Fin m → K)
+    (hc : Pᵀ * V = V * Matrix.diagonal vals) (hW : diagonalize V * W = 1) :
+    conjugated (diagonalize V) W P = Matrix.diagonal vals := by
+  have h : Vᵀ * P = Matrix.diagonal vals * Vᵀ := by
+    have := congrArg Matrix.transpose hc
+    simpa [Matrix.transpose_mul, Matrix.diagonal_transpose] using this
+  unfold conjugated diagonalize at *
+  rw [← Matrix.mul_assoc, h, Matrix.mul_assoc, hW, Matrix.mul_one]
+
+/-- non-vacuity: `P = [[2,0],[1,3]]` (row matrix), eigen-data of `Pᵀ` -/
+example : ∃ v, eigenvector (K := ℚ) ![2, 3] !![1, 1; 0, 1] (fun x => x == 3) = some v ∧
+    applyT !![2, 0; 1, 3] v = (3 : ℚ) • v := by
+  have hc : (!![2, 0; 1, 3] : Matrix (Fin 2) (Fin 2) ℚ)ᵀ * !![1, 1; 0, 1] = !![1, 1; 0, 1] * Matrix.diagonal ![2, 3] := by
+    ext i j; fin_cases i <;> fin_cases j <;> simp [Matrix.mul_apply, Fin.sum_univ_succ, Matrix.diagonal_apply] <;> norm_num
+  have hv : eigenvector (K := ℚ) ![2, 3] !![1, 1; 0, 1] (fun x => x == 3) = some ((!![1, 1; 0, 1] : Matrix (Fin 2) (Fin 2) ℚ)ᵀ 1) := by
+    simp [eigenvector, firstTrue]
+  obtain ⟨i, hi, h1, _, h3⟩ := eigenvector_selected _ _ _ _ hc _ hv
+  refine ⟨_, hv, ?_⟩
+  have : i = 1 := by
+    fin_cases i
+    · simp at h1
+    · rfl
+  subst this
+  simpa using h3
+
+end GT.C16
